@@ -210,6 +210,16 @@ func ReadFrom(r io.Reader) (idx Index, err error) {
 		if r.Length < 0 || r.Start < 0 || r.BasesPerLine < 0 || r.BytesPerLine < r.BasesPerLine || (r.Length > 0 && r.BasesPerLine == 0) {
 			return nil, parseError(line, 0, errors.New("invalid record layout"))
 		}
+		if r.BasesPerLine > 0 {
+			// The file offset of the last base must be representable:
+			// Start + lines*BytesPerLine + BasesPerLine.
+			const maxInt64 = 1<<63 - 1
+			lines := int64(r.Length / r.BasesPerLine)
+			room := maxInt64 - r.Start - int64(r.BasesPerLine)
+			if room < 0 || (lines > 0 && int64(r.BytesPerLine) > room/lines) {
+				return nil, parseError(line, 0, errors.New("invalid record layout"))
+			}
+		}
 		idx[rec[nameField]] = r
 	}
 }
